@@ -197,7 +197,9 @@ func c19Prop(c *sim.Case) {
 			if exists && cur.DeletionTimestamp.IsZero() {
 				if sim.Weighted(c, "deleting.grace", 2, 1) == 1 {
 					// deleted with a grace period: the deletion time lies ahead, the object is terminating all the same
-					data := cur.Data
+					// (changed and deleted in quick succession: what the terminating object holds was never applied)
+					ctr++
+					data := map[string][]byte{"client-secret": []byte(fmt.Sprintf("terminating-%d", ctr))}
 					cur.Finalizers = nil
 					_ = kc.Update(ctx, cur)
 					_ = kc.Delete(ctx, cur)
